@@ -38,22 +38,38 @@ theorem key_injective (n1 n2 : Bytes) (e1 e2 : Int)
 theorem str_roundtrip (v : Bytes) : decodeEntry (encodeEntry (.str v)) = some (.str v) :=
   Proofs.C14.str_roundtrip v
 
-theorem list_roundtrip (l : LList) (h : l.WF) :
+/-! Collections. The only hypothesis beyond well-formedness is the int64 guard on lengths: a Go
+    byte string cannot be 2^63 bytes long, the model's lists can. Without it the statements are
+    false (`Proofs.C14Counterexamples.*_roundtrip_false`). -/
+
+/-- lists: every element content and length, any number of elements, order preserved -/
+theorem list_roundtrip (l : LList) (h : l.WF) (hlen : ∀ v ∈ l.items, v.length < 2 ^ 63) :
     decodeEntry (encodeEntry (.list l)) = some (.list l) :=
-  Proofs.C14.list_roundtrip l h
+  Proofs.C14.list_roundtrip_partial l h hlen
 
-theorem hash_roundtrip (m : AList Bytes) (h : AList.Sorted m) :
+/-- hashes: every field/value (incl. empty), on both sides of every length-prefix boundary -/
+theorem hash_roundtrip (m : AList Bytes) (h : AList.Sorted m)
+    (hlen : ∀ p ∈ m, p.1.length + p.2.length + 10 < 2 ^ 63) :
     decodeEntry (encodeEntry (.hash m)) = some (.hash m) :=
-  Proofs.C14.hash_roundtrip m h
+  Proofs.C14.hash_roundtrip_partial' m h hlen
 
-theorem set_roundtrip (m : AList Unit) (h : AList.Sorted m) :
+/-- sets (this is the statement that was false of the code before the `fix:` of set.GetValue:
+    members of 64 bytes or more were truncated) -/
+theorem set_roundtrip (m : AList Unit) (h : AList.Sorted m) (hlen : ∀ p ∈ m, p.1.length < 2 ^ 63) :
     decodeEntry (encodeEntry (.set m)) = some (.set m) :=
-  Proofs.C14.set_roundtrip m h
+  Proofs.C14.set_roundtrip_partial m h hlen
 
-/-- sorted sets: the dictionary comes back exactly, for every non-NaN score bit pattern -/
-theorem zset_roundtrip (z : ZSet) (h : z.WF) :
+/-- sorted sets: dictionary *and* skiplist order come back exactly, for every non-NaN score bit
+    pattern (incl. ±0, ±inf, subnormals); the decoder re-inserts in member order, the theorem says
+    the rebuilt chain is the original one -/
+theorem zset_roundtrip (z : ZSet) (h : z.WF) (hlen : ∀ p ∈ z.dict, p.1.length + 8 < 2 ^ 63) :
     decodeEntry (encodeEntry (.zset z)) = some (.zset z) :=
-  Proofs.C14.zset_roundtrip z h
+  Proofs.C14.zset_roundtrip_partial z h hlen
+
+/-- the length guard is necessary: with a 2^63-byte element the list round trip fails -/
+theorem list_roundtrip_needs_length_guard :
+    ¬ ∀ l : LList, l.WF → decodeEntry (encodeEntry (.list l)) = some (.list l) :=
+  Proofs.C14Counterexamples.list_roundtrip_false
 
 /-- non-vacuity: concrete non-trivial values meet the hypotheses -/
 example : (⟨[[1], [], [2, 3]], 3⟩ : LList).WF := by simp [LList.WF]
